@@ -40,7 +40,7 @@ def run(ctx):
     ctx.extra["pool"] = ps["note"]
     for pm in ps.get("parse_mismatch") or []:
         ctx.report(pm, {"reexec": ["dns-pool"], "what": pm}, {"cause": "hosts-line-parse"})
-    r = ctx.tlc("MC_DNSEngine", CFG % (3 if ctx.tier == "quick" else 5), files={"dnspool.ndjson": pool}, timeout=2400)
+    r = ctx.tlc("MC_DNSEngine", CFG % (3 if ctx.tier == "quick" else 4), files={"dnspool.ndjson": pool}, timeout=2400)
     recs = [x for x in r.records if x.get("kind") == "CASE"]
     s, mism = replay_cases(ctx, pool, recs)
     ctx.evaluations += s["evaluations"]
